@@ -7,6 +7,10 @@ package main
 // Same program/trace format as memrun (WD and T lines included; the BG directive of memrun is not
 // supported here), plus
 //
+//	CLOSE <conn>     the connection ends (trace line "X <conn>": the model forgets its selection);
+//	                 a later use of the same or another id opens a new connection
+//	PAR ... JOIN     the C lines in between run concurrently, one goroutine per connection id
+//	                 (traced per connection, in order of first appearance)
 //	ALIGN <ms>       sleep until the clock's millisecond-within-the-second equals <ms>
 //	@T+<n> / @T-<n>  as an argument: replaced by the decimal unix time (seconds) at the moment the
 //	                 command is issued plus/minus n (the substituted bytes appear in the trace)
@@ -34,6 +38,7 @@ import (
 	"os"
 	"strconv"
 	"strings"
+	"sync"
 	"time"
 
 	"github.com/innovationb1ue/RedisGO/config"
@@ -47,6 +52,7 @@ type xconn struct {
 	c      net.Conn        // mode handle / tcp: client side
 	r      *bufio.Reader
 	cancel context.CancelFunc
+	done   chan struct{} // mode handle: closed when Manager.Handle has returned
 }
 
 // readWire reads one RESP value from the wire and renders it canonically (same text as canonReply).
@@ -165,7 +171,10 @@ func memxCmd(args []string) error {
 		}
 		conns = map[string]*xconn{}
 	}
+	var connMu sync.Mutex
 	getConn := func(id string) (*xconn, error) {
+		connMu.Lock()
+		defer connMu.Unlock()
 		if c, ok := conns[id]; ok {
 			return c, nil
 		}
@@ -178,7 +187,11 @@ func memxCmd(args []string) error {
 			ctx, cancel := context.WithCancel(context.Background())
 			c.c, c.cancel = cli, cancel
 			c.r = bufio.NewReader(cli)
-			go mgr.Handle(ctx, srv)
+			c.done = make(chan struct{})
+			go func(done chan struct{}) {
+				mgr.Handle(ctx, srv)
+				close(done)
+			}(c.done)
 		case "tcp":
 			var cli net.Conn
 			var err error
@@ -200,6 +213,65 @@ func memxCmd(args []string) error {
 		conns[id] = c
 		return c, nil
 	}
+
+	// one C line: optional sleep, the command on its connection (opened on first use), trace line(s)
+	doCmd := func(fs []string) (string, error) {
+		ms, _ := strconv.Atoi(fs[2])
+		if ms > 0 {
+			time.Sleep(time.Duration(ms) * time.Millisecond)
+		}
+		c, err := getConn(fs[1])
+		if err != nil {
+			return "", err
+		}
+		var lb strings.Builder
+		now := time.Now()
+		cmd := make([][]byte, 0, len(fs)-3)
+		hexargs := make([]string, 0, len(fs)-3)
+		for _, h := range fs[3:] {
+			if strings.HasPrefix(h, "@T") {
+				off, _ := strconv.ParseInt(h[2:], 10, 64)
+				b := []byte(strconv.FormatInt(now.Unix()+off, 10))
+				cmd = append(cmd, b)
+				hexargs = append(hexargs, hx(b))
+			} else {
+				cmd = append(cmd, unhx(h))
+				hexargs = append(hexargs, h)
+			}
+		}
+		var out string
+		if mode == "view" {
+			out = execStep(c.view, cmd)
+		} else {
+			if mode == "tcp" {
+				c.c.SetDeadline(time.Now().Add(20 * time.Second))
+			}
+			if _, err := c.c.Write(wireCommand(cmd)); err != nil {
+				out = "!WRITEERR"
+			} else if out, err = readWire(c.r); err != nil {
+				out = "!READERR(" + err.Error() + ")"
+			}
+			name := ""
+			if len(cmd) > 0 {
+				name = strings.ToLower(string(cmd[0]))
+			}
+			out = canonForCmd(name, out)
+		}
+		if mode == "tcp" {
+			fmt.Fprintf(&lb, "S %d %d %s %s | %s | %d\n", now.Unix(), now.UnixMilli(), fs[1], strings.Join(hexargs, " "), out, time.Now().UnixMilli())
+		} else {
+			fmt.Fprintf(&lb, "S %d %d %s %s | %s\n", now.Unix(), now.UnixMilli(), fs[1], strings.Join(hexargs, " "), out)
+			// as memrun: the instant a blocking pop returned, checked against the model
+			if len(cmd) > 0 {
+				if n := strings.ToLower(string(cmd[0])); n == "blpop" || n == "brpop" {
+					fmt.Fprintf(&lb, "T %d\n", time.Now().UnixMilli())
+				}
+			}
+		}
+		return lb.String(), nil
+	}
+	inPar := false
+	var parLines [][]string
 
 	for sc.Scan() {
 		fs := strings.Fields(sc.Text())
@@ -234,57 +306,82 @@ func memxCmd(args []string) error {
 				time.Sleep(time.Duration(d) * time.Millisecond)
 			}
 		case "C":
-			ms, _ := strconv.Atoi(fs[2])
-			if ms > 0 {
-				time.Sleep(time.Duration(ms) * time.Millisecond)
+			if inPar {
+				parLines = append(parLines, fs)
+				continue
 			}
-			c, err := getConn(fs[1])
+			line, err := doCmd(fs)
 			if err != nil {
 				return err
 			}
-			now := time.Now()
-			cmd := make([][]byte, 0, len(fs)-3)
-			hexargs := make([]string, 0, len(fs)-3)
-			for _, h := range fs[3:] {
-				if strings.HasPrefix(h, "@T") {
-					off, _ := strconv.ParseInt(h[2:], 10, 64)
-					b := []byte(strconv.FormatInt(now.Unix()+off, 10))
-					cmd = append(cmd, b)
-					hexargs = append(hexargs, hx(b))
-				} else {
-					cmd = append(cmd, unhx(h))
-					hexargs = append(hexargs, h)
+			w.WriteString(line)
+		case "PAR":
+			// the C lines up to JOIN: one goroutine per connection id, all released together
+			inPar, parLines = true, nil
+		case "JOIN":
+			inPar = false
+			order := []string{}
+			byConn := map[string][][]string{}
+			for _, l := range parLines {
+				if _, ok := byConn[l[1]]; !ok {
+					order = append(order, l[1])
 				}
+				byConn[l[1]] = append(byConn[l[1]], l)
 			}
-			var out string
-			if mode == "view" {
-				out = execStep(c.view, cmd)
-			} else {
-				if mode == "tcp" {
-					c.c.SetDeadline(time.Now().Add(20 * time.Second))
-				}
-				if _, err := c.c.Write(wireCommand(cmd)); err != nil {
-					out = "!WRITEERR"
-				} else if out, err = readWire(c.r); err != nil {
-					out = "!READERR(" + err.Error() + ")"
-				}
-				name := ""
-				if len(cmd) > 0 {
-					name = strings.ToLower(string(cmd[0]))
-				}
-				out = canonForCmd(name, out)
-			}
-			if mode == "tcp" {
-				fmt.Fprintf(w, "S %d %d %s %s | %s | %d\n", now.Unix(), now.UnixMilli(), fs[1], strings.Join(hexargs, " "), out, time.Now().UnixMilli())
-			} else {
-				fmt.Fprintf(w, "S %d %d %s %s | %s\n", now.Unix(), now.UnixMilli(), fs[1], strings.Join(hexargs, " "), out)
-				// as memrun: the instant a blocking pop returned, checked against the model
-				if len(cmd) > 0 {
-					if n := strings.ToLower(string(cmd[0])); n == "blpop" || n == "brpop" {
-						fmt.Fprintf(w, "T %d\n", time.Now().UnixMilli())
+			outs := map[string]*strings.Builder{}
+			var pmu sync.Mutex
+			var wg sync.WaitGroup
+			start := make(chan struct{})
+			var perr error
+			for _, id := range order {
+				outs[id] = &strings.Builder{}
+				wg.Add(1)
+				go func(id string) {
+					defer wg.Done()
+					<-start
+					for _, l := range byConn[id] {
+						line, err := doCmd(l)
+						pmu.Lock()
+						if err != nil {
+							perr = err
+						}
+						outs[id].WriteString(line)
+						pmu.Unlock()
 					}
+				}(id)
+			}
+			close(start)
+			wg.Wait()
+			if perr != nil {
+				return perr
+			}
+			for _, id := range order {
+				w.WriteString(outs[id].String())
+			}
+		case "CLOSE":
+			// the connection ends; in mode handle wait until Manager.Handle has returned (that is when
+			// the server is done with its per-connection state), over TCP give the server a moment
+			connMu.Lock()
+			c, ok := conns[fs[1]]
+			delete(conns, fs[1])
+			connMu.Unlock()
+			if ok {
+				if c.c != nil {
+					c.c.Close()
+				}
+				if c.cancel != nil {
+					c.cancel()
+				}
+				if c.done != nil {
+					select {
+					case <-c.done:
+					case <-time.After(2 * time.Second):
+					}
+				} else if mode == "tcp" {
+					time.Sleep(3 * time.Millisecond)
 				}
 			}
+			fmt.Fprintf(w, "X %s\n", fs[1])
 		case "DUMP":
 			if mode == "tcp" {
 				continue
